@@ -227,6 +227,17 @@ func (s *Service) Update(ctx context.Context, id string, plugin string, data Con
 		return nil, err
 	}
 
+	// Refuse what Create refuses: a connector that was updated into a shape
+	// Create does not accept can not be re-created when a later delete has to
+	// be rolled back.
+	err = s.validateConnector(data, id)
+	if err != nil {
+		return nil, cerrors.Errorf("connector is invalid: %w", err)
+	}
+	if plugin == "" {
+		return nil, cerrors.New("must provide a plugin")
+	}
+
 	if conn.Plugin != plugin {
 		s.logger.Warn(ctx).Msgf("connector plugin changing from %v to %v, "+
 			"this may lead to unexpected behavior and configuration issues.", conn.Plugin, plugin)
